@@ -113,6 +113,12 @@ CLAIMED = {
    text="Partial. Lean proof that constructed M-Core modules print to tokens the parser maps back to exactly what was constructed, and (C06) that constructors compute LLVM's type on "
         "every well-typed operand tuple; correspondence on construction programs (API-built modules, every instruction constructor, constructed vs parsed numbering).",
    note="as C01 plus the C06/C08 models.", technique=T, design="§4 C03"),
+ "C14": dict(
+   text="Lean proof over M-History (all editing histories, all observer placements): printing twice is idempotent; the text of a successful print depends only on the "
+        "function's shape, never on IDs left by earlier prints; from a fresh function the observer-free history always prints and the same history with observers either "
+        "prints exactly the same text or panics. The full statement is kernel-refuted at a 4-step witness (print, insert before a numbered value, print -> panic), recorded "
+        "as a known finding. Tied by random histories replayed on the real API, every print output compared (including the partial renumbering a failed print leaves behind).",
+   note="Lean kernel + propext/Quot.sound; M-History hand-written on top of the C08 model; cached Typ/Successors fields not modelled.", technique=T, design="§4 C14"),
 }
 
 def main():
